@@ -127,6 +127,23 @@ def float_part(L, rng, n):
             ga = fsr.closeArcGap(a, b, delta)
             adv = float(np.asarray(fsr.arcDistance(a, ga)).reshape(-1)[0])
             L.log("closeArcGap advances by exactly delta", reg, abs(adv - delta), 1e-8, dict(case, delta=delta))
+        # ---- the same with the goal a hair away from the origin (1e-9 .. 1e-4 in the six-vector): a step of delta is
+        #      still a step of exactly delta along the line to the goal - "already there" means equal, not close
+        if rng.random() < 0.3:
+            e6 = np.array([rng.gauss(0, 1) for _ in range(6)])
+            e6 *= 10 ** rng.uniform(-9, -4) / np.linalg.norm(e6)
+            bc = tm(list(a.gTAA().reshape(6) + e6))
+            dc = bc.gTAA().reshape(6) - a.gTAA().reshape(6)
+            if np.linalg.norm(dc) > 0:
+                cc = dict(case, close_goal=bc.gTAA().reshape(6).tolist(), delta=delta)
+                g = fsr.closeLinearGap(a, bc, delta).gTAA().reshape(6)
+                step = g - a.gTAA().reshape(6)
+                L.log("closeLinearGap advances by exactly delta", "float|close-goal", abs(float(np.linalg.norm(step)) - delta), 1e-8, cc)
+                L.log("closeLinearGap moves toward the goal", "float|close-goal",
+                      float(np.linalg.norm(step / delta - dc / np.linalg.norm(dc))), 1e-6, cc)
+                ga = fsr.closeArcGap(a, bc, delta)
+                adv = float(np.asarray(fsr.arcDistance(a, ga)).reshape(-1)[0])
+                L.log("closeArcGap advances by exactly delta", "float|close-goal", abs(adv - delta), 1e-8, cc)
         # ---- straight path
         N = rng.choice([2, 3, rng.randint(2, 200)])
         path = fsr.IKPath(a, b, N)
@@ -197,6 +214,8 @@ def float_part(L, rng, n):
                 "IKPath evenly spaced from start to goal", "exp(twistToGoal) * start = goal", "chainJacobian = analytic space Jacobian",
                 "numericalJacobian = analytic Jacobian", "rotationFromVector points local z along the vector"):
         L.require(law, reg, max(3, n // 20))
+    for law in ("closeLinearGap advances by exactly delta", "closeArcGap advances by exactly delta"):
+        L.require(law, "float|close-goal", max(3, n // 20))
     for law in ("lookAt keeps the position", "lookAt is a proper rotation", "lookAt points local z at the target"):
         for r2 in ("float|vertical", "float|near-vertical"):
             L.require(law, r2, max(3, n // 20))
